@@ -2,7 +2,8 @@
 //! V = il::Expression and logs every call with its result.  Trace_C08.tla (over Mem.tla) judges.
 //!
 //!   c08 --mode random --n SESSIONS [--ops MAXOPS] [--stream K] --out FILE   (VERIF_SEED)
-//!   c08 --mode gen --in HISTORIES.ndjson --out FILE                 (TLC-generated small histories)
+//!   c08 --mode gen --in HISTORIES.ndjson [--placements rotate|all] [--vt both|alternate] --out FILE
+//!                                                                   (TLC-generated small histories)
 //!   c08 --mode replay --in SESSION.ndjson --out FILE                (re-drive the inputs of a session)
 //!
 //! A session is a list of *input* events (no results); `drive` executes it against the real
@@ -503,10 +504,13 @@ fn main() {
         }
         "gen" => {
             let placements = fv::arg_str("placements", "rotate");
+            let vt = fv::arg_str("vt", "both");
             for (i, hist) in read_ndjson(&fv::arg_str("in", "")).iter().enumerate() {
                 let bases: Vec<u64> = if placements == "all" { vec![0, 1, 2] } else { vec![i as u64 % 3] };
+                // value types: both (default), or alternating with the history index
+                let vts: Vec<bool> = if vt == "alternate" { vec![(i / 3) % 2 == 1] } else { vec![false, true] };
                 for base in bases {
-                    for expr in [false, true] {
+                    for expr in vts.iter().cloned() {
                         run_session(&gen_session(hist, base, expr), &mut out, &cur_path);
                     }
                 }
